@@ -8,8 +8,8 @@ SPEC = {
         'recorder validated on every workload: replaying the full trace must reproduce the real final datadir byte for byte, else the run is reported broken',
     ],
     'stages': [
-        custom('bin/crashsim/c16_worker.py', 160, 4800, name='c16_crash_images', needs=[('san', 'vh_c16')],
-               min_cases_quick=40, floors={'cut-inside-flush': 0.1, 'mode:power': 0.15},
+        custom('bin/crashsim/c16_worker.py', 320, 6400, name='c16_crash_images', needs=[('san', 'vh_c16')],
+               min_cases_quick=40, floors={'cut-inside-flush': 0.1, 'mode:power': 0.15, 'cut-after-coins-batch': 0.1},
                hard_timeout_quick=1500, max_seconds_quick=420, max_seconds_thorough=5400,
                rule='one generated workload per worker (quick; 3 in thorough) recorded under strace; cut points = file operations after start-up, two thirds '
                     'drawn from windows of interest (inside a state flush, at a change of file class, before a rename/unlink), each as a kill image plus a '
